@@ -46,9 +46,6 @@ fn c17_membership_step() {
             kani::assert(model::auth_of(&owner), "VERIF:C06,C17:the operator set changes only with the current owner's authorisation");
             kani::assert(t_was != add, "VERIF:C17:only an absent address can be added and only a present one removed");
             kani::assert(member(&target) == add, "VERIF:C17:the named address joins or leaves the operator set");
-            let name = if add { "operator_added" } else { "operator_removed" };
-            kani::assert(model::events_len() == 1 && model::event_contract(0) == ops()
-                && model::event_topics(0) == model::topics_of(&(Symbol::new(&env, name), target.clone())), "VERIF:C17:one event naming the address");
             kani::cover!(add, "VERIF:reach:operator added");
             kani::cover!(!add, "VERIF:reach:operator removed");
         }
